@@ -185,7 +185,6 @@ def _debug_fold(check: Check, fi: FuncInfo):
     ni, ns, nf = ff.node_of(ci), ff.node_of(cs), ff.node_of(cf)
     order_ok = ff.cfg.dominates(ni, ns) and ff.cfg.dominates(ni, nf) and wmean._loop_of(ff, cs) is not None and wmean._loop_of(
         ff, cs) is not wmean._loop_of(ff, cf)
-    step_ok = len(cs.args) == 2 and isinstance(cs.args[0], ast.Name) and cs.args[0].id == 'state'
   check.ob('R-FOLD', fi, 'debug backend fold', ok and order_ok,
            f'each user function is called at exactly one site ({detail}); init dominates step and final; step runs in the '
            f'batch loop, final after it (ok={order_ok})')
@@ -249,7 +248,8 @@ def _pmap(check: Check):
   bff = FuncFlow.of(repo, run_block)
   okm = False
   for _, c in bff.calls():
-    if isinstance(c.func, ast.Name) and c.func.id == 'p_client_step' and len(c.args) == 3:
+    rr = bff.callee(c)
+    if rr.kind == 'func' and rr.func is step and len(c.args) == 3:
       loop = wmean._loop_of(bff, c)
       if isinstance(loop, ast.For):
         tg = wmean.loop_targets(loop)
@@ -263,8 +263,12 @@ def _pmap(check: Check):
                'each padded batch is stepped together with its own mask from block.masked_batches', node=c)
   # run: skipping padding clients, truncation, one yield per appended output
   rff = FuncFlow.of(repo, run)
+  # the list that collects (client id, output, step results): the append whose argument is a 3-tuple
   appends = [c for _, c in rff.calls() if isinstance(c.func, ast.Attribute) and c.func.attr == 'append' and isinstance(
-      c.func.value, ast.Name) and c.func.value.id == 'outputs']
+      c.func.value, ast.Name) and c.args and isinstance(c.args[0], ast.Tuple) and len(c.args[0].elts) == 3]
+  seen_a = set()
+  appends = [c for c in appends if not (id(c) in seen_a or seen_a.add(id(c)))]
+  OUT = appends[0].func.value.id if appends else None
   if len(appends) != 1:
     check.inconclusive('R-MASK.skip', run, 'outputs.append', f'{len(appends)} append sites')
     return
@@ -325,14 +329,14 @@ def _pmap(check: Check):
     yl = wmean._loop_of(rff, y)
     if isinstance(yl, ast.For) and isinstance(yl.iter, ast.Call) and rff.ext(yl.iter.func) == 'builtins.range' and yl.iter.args:
       a = yl.iter.args[0]
-      cnt_ok = isinstance(a, ast.Call) and rff.ext(a.func) == 'builtins.len' and isinstance(a.args[0], ast.Name) and a.args[0].id == 'outputs'
+      cnt_ok = isinstance(a, ast.Call) and rff.ext(a.func) == 'builtins.len' and isinstance(a.args[0], ast.Name) and a.args[0].id == OUT
       pops = [c for c in ast.walk(yl) if isinstance(c, ast.Call) and isinstance(c.func, ast.Attribute) and c.func.attr == 'pop' and isinstance(
-          c.func.value, ast.Name) and c.func.value.id == 'outputs']
+          c.func.value, ast.Name) and c.func.value.id == OUT]
       every = wmean._on_every_iteration(rff, yl, n)
       v = y.value
       shape_ok = isinstance(v, ast.Tuple) and len(v.elts) == 3
       rev = any(isinstance(c.func, ast.Attribute) and c.func.attr == 'reverse' and isinstance(c.func.value, ast.Name) and
-                c.func.value.id == 'outputs' for _, c in rff.calls())
+                c.func.value.id == OUT for _, c in rff.calls())
       pop_last = len(pops) == 1 and not pops[0].args
       ok_y = cnt_ok and len(pops) == 1 and every and shape_ok and (rev == pop_last)
       why = f'count=len(outputs):{cnt_ok}, pops={len(pops)}, every-iteration={every}, 3-tuple={shape_ok}, reverse+pop() order preserved={rev == pop_last}'
@@ -370,11 +374,40 @@ def _blockify(check: Check):
   fi = repo.func(MOD, '_blockify')
   ff = FuncFlow.of(repo, fi)
   check.analysed(fi)
-  # client level: block.append(<padding>) paired with client_mask.append(False) in the same loop body
+  # ---- roles from the ClientBlock(...) constructor that is yielded
+  ctor = None
+  for _, y in ff.yields():
+    if isinstance(y.value, ast.Call) and ff.callee(y.value).kind == 'class':
+      ctor = y.value
+  if ctor is None:
+    check.inconclusive('R-MASK.blockify', fi, 'yield ClientBlock(...)', 'block constructor not found')
+    return
+  fields = [f for f, _, _ in ff.callee(ctor).cls.fields]
+  kw = call_args(ctor, fields)
+  def name_of(field):
+    v = kw.get(field)
+    return v.id if isinstance(v, ast.Name) else None
+  M, NB, MB = name_of('client_mask'), name_of('num_batches'), name_of('masked_batches')
+  BLK = None
+  cid = kw.get('client_id')
+  if isinstance(cid, ast.ListComp) and isinstance(cid.generators[0].iter, ast.Name):
+    BLK = cid.generators[0].iter.id
+  ok_ctor = all([M, NB, MB, BLK]) and isinstance(kw.get('client_input'), ast.ListComp) and txt(kw['client_input'].generators[0].iter) == BLK
+  check.ob('R-MASK.blockify-ctor', fi, txt(ctor)[:90], ok_ctor,
+           'the block carries the client ids / inputs of the padded client list and the masks and counts computed for it')
+  if not ok_ctor:
+    return
+
   def appends(name):
-    return [c for _, c in ff.calls() if isinstance(c.func, ast.Attribute) and c.func.attr == 'append' and isinstance(
-        c.func.value, ast.Name) and c.func.value.id == name and c.args]
-  blk, cm = appends('block'), appends('client_mask')
+    out, seen = [], set()
+    for _, c in ff.calls():
+      if isinstance(c.func, ast.Attribute) and c.func.attr == 'append' and isinstance(c.func.value, ast.Name) and c.func.value.id == name and c.args:
+        if id(c) not in seen:
+          seen.add(id(c))
+          out.append(c)
+    return out
+  # ---- client level
+  blk, cm = appends(BLK), appends(M)
   ok_c = False
   if len(blk) == 1 and len(cm) == 1:
     same_body = ff.module.parent_of.get(ff.module.enclosing_stmt(blk[0])) is ff.module.parent_of.get(ff.module.enclosing_stmt(cm[0]))
@@ -383,18 +416,22 @@ def _blockify(check: Check):
     pad_ok = isinstance(pad, ast.Tuple) and len(pad.elts) == 3 and isinstance(pad.elts[0], ast.Constant) and pad.elts[0].value is None and isinstance(
         pad.elts[1], ast.List) and not pad.elts[1].elts
     ok_c = same_body and is_false and pad_ok
-  # initial mask all True, one per real client
   init_ok = False
-  for nid, ds in ff.rd.defs_at.items():
+  for ds in ff.rd.defs_at.values():
     for d in ds:
-      if d.name == 'client_mask' and d.kind == 'assign' and isinstance(d.value, ast.ListComp):
+      if d.name == M and d.kind == 'assign' and isinstance(d.value, ast.ListComp):
         e = d.value
-        init_ok = isinstance(e.elt, ast.Constant) and e.elt.value is True and isinstance(e.generators[0].iter, ast.Name) and e.generators[0].iter.id == 'block'
-  check.ob('R-MASK.blockify-clients', fi, 'block.append(padding) / client_mask.append(False)', ok_c and init_ok,
+        init_ok = isinstance(e.elt, ast.Constant) and e.elt.value is True and isinstance(e.generators[0].iter, ast.Name) and e.generators[0].iter.id == BLK
+  check.ob('R-MASK.blockify-clients', fi, f'{BLK}.append(padding) / {M}.append(False)', ok_c and init_ok,
            f'real clients are marked True (ok={init_ok}); every padding client (id None, no batches) is appended together '
            f'with a False mask entry (ok={ok_c})')
-  # batch level
-  bb, bm = appends('block_batch'), appends('batch_mask')
+  # ---- batch level: MB.append((BB, BM))
+  mb = appends(MB)
+  BB = BM = None
+  if len(mb) == 1 and isinstance(mb[0].args[0], ast.Tuple) and len(mb[0].args[0].elts) == 2 and all(
+      isinstance(e, ast.Name) for e in mb[0].args[0].elts):
+    BB, BM = (e.id for e in mb[0].args[0].elts)
+  bb, bm = (appends(BB), appends(BM)) if BB and BM else ([], [])
   ok_b = False
   why = f'{len(bb)} batch appends / {len(bm)} mask appends'
   if len(bb) == 2 and len(bm) == 2:
@@ -408,10 +445,10 @@ def _blockify(check: Check):
     ok_arms = len(arms) == 2 and all(len(v) == 2 for v in arms.values())
     good = 0
     for (td, pol), cs in arms.items():
-      test = next(t for t, p in guards_of(ff, cs[0])[:1])
+      test = guards_of(ff, cs[0])[0][0]
       real = _is_real_batch_test(test, pol)
-      bcall = next((c for c in cs if c.func.value.id == 'block_batch'), None)
-      mcall = next((c for c in cs if c.func.value.id == 'batch_mask'), None)
+      bcall = next((c for c in cs if c.func.value.id == BB), None)
+      mcall = next((c for c in cs if c.func.value.id == BM), None)
       if bcall is None or mcall is None or real is None:
         continue
       mv = mcall.args[0]
@@ -421,16 +458,15 @@ def _blockify(check: Check):
         good += 1
     ok_b = ok_arms and good == 2
     why = f'arms={len(arms)}, consistent arms={good}'
-  check.ob('R-MASK.blockify-batches', fi, 'block_batch.append(..) / batch_mask.append(..)', ok_b,
+  check.ob('R-MASK.blockify-batches', fi, 'batches.append(real|padding) / mask.append(True|False)', ok_b,
            f'a real batch (j < len(batches)) is stored with True, a padding batch with False, one pair per client slot: {why}')
-  # num_batches counted after client padding; max taken from the sorted order
+  # ---- counts
   ok_n = False
-  for nid, ds in ff.rd.defs_at.items():
+  for ds in ff.rd.defs_at.values():
     for d in ds:
-      if d.name == 'num_batches' and isinstance(d.value, ast.ListComp):
+      if d.name == NB and isinstance(d.value, ast.ListComp):
         e = d.value
-        ok_n = isinstance(e.elt, ast.Call) and ff.ext(e.elt.func) == 'builtins.len' and isinstance(e.generators[0].iter, ast.Name) and e.generators[0].iter.id == 'block'
-        # computed after the client padding loop
+        ok_n = isinstance(e.elt, ast.Call) and ff.ext(e.elt.func) == 'builtins.len' and isinstance(e.generators[0].iter, ast.Name) and e.generators[0].iter.id == BLK
         padn = ff.node_of(blk[0]) if blk else None
         if padn is not None and not ff.cfg.reaches(padn, d.node):
           ok_n = False
@@ -439,22 +475,20 @@ def _blockify(check: Check):
     if isinstance(c.func, ast.Attribute) and c.func.attr == 'sort':
       rev = next((k.value for k in c.keywords if k.arg == 'reverse'), None)
       sort_desc = isinstance(rev, ast.Constant) and rev.value is True
-  uses_first = any(isinstance(d.value, ast.Subscript) and isinstance(d.value.value, ast.Name) and d.value.value.id == 'num_batches'
-                   for ds in ff.rd.defs_at.values() for d in ds if d.name == 'max_num_batches')
-  uses_max = any(isinstance(d.value, ast.Call) and ff.ext(d.value.func) == 'builtins.max'
-                 for ds in ff.rd.defs_at.values() for d in ds if d.name == 'max_num_batches')
-  check.ob('R-MASK.blockify-counts', fi, 'num_batches / max_num_batches', ok_n and (uses_max or (uses_first and sort_desc)),
-           f'num_batches counts real batches of every slot after client padding (ok={ok_n}); the block length is the maximum '
+  # the loop bound of the batch loop: range(X)
+  uses_first = uses_max = False
+  for n in ff.cfg.nodes:
+    if n.kind == 'for' and isinstance(n.ast.iter, ast.Call) and ff.ext(n.ast.iter.func) == 'builtins.range' and len(n.ast.iter.args) == 1 and isinstance(
+        n.ast.iter.args[0], ast.Name) and any(c in [x for x in ast.walk(n.ast) if isinstance(x, ast.Call)] for c in mb):
+      for d in ff.defs_for(n.ast.iter.args[0]):
+        v = d.value
+        if isinstance(v, ast.Subscript) and isinstance(v.value, ast.Name) and v.value.id == NB and isinstance(v.slice, ast.Constant) and v.slice.value == 0:
+          uses_first = True
+        if isinstance(v, ast.Call) and ff.ext(v.func) == 'builtins.max':
+          uses_max = True
+  check.ob('R-MASK.blockify-counts', fi, f'{NB} / block length', ok_n and (uses_max or (uses_first and sort_desc)),
+           f'{NB} counts real batches of every slot after client padding (ok={ok_n}); the block length is the maximum '
            f'(first element of a descending sort: {uses_first and sort_desc}; max(): {uses_max})')
-  # ClientBlock receives the matching lists
-  ok_ctor = False
-  for _, y in ff.yields():
-    v = y.value
-    if isinstance(v, ast.Call):
-      kw = {k.arg: k.value for k in v.keywords}
-      ok_ctor = all(isinstance(kw.get(k), ast.Name) and kw[k].id == k for k in ('client_mask', 'num_batches', 'masked_batches'))
-  check.ob('R-MASK.blockify-ctor', fi, 'ClientBlock(client_mask=..., num_batches=..., masked_batches=...)', ok_ctor,
-           'the block carries the masks and counts computed above under their own field names')
 
 
 def _is_real_batch_test(test: ast.AST, pol: bool) -> Optional[bool]:
